@@ -123,6 +123,18 @@ def handle : Handler
       let x ← rat? v
       let tol : Rat := 1 / 1000000000
       some (if -tol ≤ x && x ≤ 1 + tol then "holds" else "fails out-of-[0,1]")) "bad-args"
+  | "c08.spec_tsd", [n, m, d, deg, v] => some <| Option.getD (do
+      -- the un-normalised divergence of the implementation: non-negative, at most the mutual information of the model
+      let D ← dendro? d
+      let x ← rat? v
+      let tol : Rat := 1 / 1000000000
+      match tsdTerms (← bool? deg) (← n.toNat?) (← ratListList? m) D with
+      | .error e => some (showErr e)
+      | .ok t =>
+        let mi := t.mutualInfo.foldl (fun acc p => acc + ratToFloat p.1 * Float.log (ratToFloat (p.1 / p.2))) 0.0
+        let xf := ratToFloat x
+        some (if x < -tol then "fails negative"
+              else if xf > mi * (1.0 + 1e-9) + 1e-12 then "fails above-mutual-information" else "holds")) "bad-args"
   | "c08.spec_nonneg", [v] => some <| Option.getD (do
       let x ← rat? v
       let tol : Rat := 1 / 1000000000
